@@ -328,10 +328,31 @@ COLLS = [["u"], ["u", "c1"], ["u", "c2"], ["u", "ab"], ["u", "p"], ["u", "p", "c
 HREFS = ["a.ics", "b.ics", "u1.ics", "u2.ics", "k.vcf", "u5.vcf", "zz"]
 
 
+def warmup(rng):
+    """a few requests that populate the store, so that a history is not mostly 404 / 409 (they go through the same
+    model-vs-implementation step as every other request)"""
+    cal = lambda uid: rng.choice([o for o in POOL if o["uid"] == uid and o["kind"] != "VCARD"])   # noqa: E731
+    reqs = [{"method": "MKCALENDAR", "path": ["u", "c1"], "props": []},
+            {"method": "MKCOL", "path": ["u", "ab"], "tag": "VADDRESSBOOK", "props": []},
+            {"method": "PUT", "path": ["u", "c1", "a.ics"], "body": "cal", "objs": [cal("u3")]},
+            {"method": "PUT", "path": ["u", "c1", "b.ics"], "body": "cal", "objs": [cal("u4")]},
+            {"method": "MKCALENDAR", "path": ["u", "c2"], "props": []},
+            {"method": "PUT", "path": ["u", "ab", "k.vcf"], "body": "cards", "objs": [rng.choice([o for o in POOL if o["kind"] == "VCARD"])]}]
+    return reqs[:rng.randint(2, len(reqs))]
+
+
 def gen_request(rng, sim, known_etags):
     k = rng.random()
     coll = rng.choice(COLLS)
     item_path = rng.choice(COLLS[1:6]) + [rng.choice(HREFS)]
+    # half of the time requests on items go to a calendar / address book that exists (otherwise most of a history is 409 / 404)
+    tagged = [e for e in (getattr(sim, "model_store", None) or []) if e.get("tag")]
+    if tagged and rng.random() < 0.5:
+        e = rng.choice(tagged)
+        names = [i["href"] for i in e["items"] if not i["href"].startswith("#")]
+        item_path = list(e["path"]) + [rng.choice(names) if names and rng.random() < 0.5 else rng.choice(HREFS)]
+        if rng.random() < 0.3:
+            coll = list(e["path"])
 
     def objs(n, kinds=None, same_uid=False):
         cand = [o for o in POOL if (kinds is None or o["kind"] in kinds)]
